@@ -285,9 +285,25 @@ fn gen_plan(id: &str, seed: u64, _run: u64, tier: Tier) -> PlanA {
             p
         }
         "C13" => {
-            let inst = gen_prio3_inst(rng, true, true);
+            let which = rng.below(10);
+            let inst = if which < 6 {
+                gen_prio3_inst(rng, true, true)
+            } else if which < 8 {
+                let mut i = crate::inst_poplar::gen_poplar_inst(rng, false);
+                i.len = i.len.min(16);
+                i
+            } else {
+                crate::inst_prio2::gen_prio2_inst(rng, true)
+            };
             let k = 2 + rng.usize_below(7);
             let mut p = base_plan(inst, "honest", rng, k);
+            if p.inst.class == "poplar1" {
+                // inner and leaf levels (the two aggregate-share kinds)
+                let inputs: Vec<Vec<N>> = p.reports.iter().map(|r| r.meas.clone()).collect();
+                let bits = p.inst.len as usize;
+                let plen = if rng.chance(1, 2) { bits } else { 1 + rng.usize_below(bits) };
+                p.aps = vec![crate::inst_poplar::gen_prefixes(rng, &inputs, plen, 6, None)];
+            }
             p.agg = gen_agg_plan(rng, p.inst.n as usize, k, true);
             gen_noise(rng, &mut p);
             p
@@ -334,13 +350,29 @@ fn gen_plan(id: &str, seed: u64, _run: u64, tier: Tier) -> PlanA {
             }
         }
         "C18" => {
-            let mut inst = gen_prio3_inst(rng, true, false);
+            let mut inst = if rng.chance(1, 4) {
+                let mut i = crate::inst_poplar::gen_poplar_inst(rng, false);
+                i.len = i.len.min(16);
+                i
+            } else {
+                gen_prio3_inst(rng, true, false)
+            };
             if inst.n > 6 {
                 inst.n = 2 + rng.below(5) as u8;
             }
             let n = inst.n;
             let k = 1 + rng.usize_below(2);
             let mut p = base_plan(inst, "skew", rng, k);
+            if p.inst.class == "poplar1" {
+                // query the report's own path so that a mismatch has something to break
+                let inputs: Vec<Vec<N>> = p.reports.iter().map(|r| r.meas.clone()).collect();
+                let bits = p.inst.len as usize;
+                let plen = if rng.chance(1, 2) { bits } else { 1 + rng.usize_below(bits) };
+                let mut ap: Vec<String> = inputs.iter().map(|m| crate::inst_poplar::bits_to_string(&m[..plen])).collect();
+                ap.sort();
+                ap.dedup();
+                p.aps = vec![ap];
+            }
             let what = *rng.pick(&["ctx", "vk", "nonce", "nonce", "id", "id"]);
             let all = rng.chance(1, 2);
             let who = if all { Vec::new() } else { vec![rng.below(n as u64) as u8] };
